@@ -185,8 +185,8 @@ func (x *exec) protoCurrent(step int, h *handle) {
 		}()
 		return
 	}
-	a, ok1 := h.it.Current().(*world.Nav)
-	b, ok2 := h.it.Current().(*world.Nav)
+	a, ok1 := h.it.Current().(world.IDer)
+	b, ok2 := h.it.Current().(world.IDer)
 	x.res.Stats.OpsCompared++
 	want := h.want.IDs[h.pos-1]
 	if !ok1 || !ok2 || a.ID() != want || b.ID() != want {
@@ -207,8 +207,8 @@ func (x *exec) protoWander(step int, h *handle, n int, seed uint64) {
 	if h.dead || h.pos == 0 || h.done {
 		return
 	}
-	cur, ok := h.it.Current().(*world.Nav)
-	if !ok {
+	cur := h.it.Current()
+	if _, ok := cur.(world.IDer); !ok {
 		return
 	}
 	c := cur.Copy()
